@@ -10,7 +10,7 @@ for d in sorted(glob.glob(os.path.join(V, "seeded", "*"))):
     if len(title) > 150:
         title = title[:147] + "..."
     files = ", ".join(os.path.basename(f) for f in (m.get("files") or []))
-    rows.append("| %s | %s (%s) | %s | %s |" % (name, title, files, m.get("checks_run", ""), m.get("outcome", "").replace("|", "/")))
+    rows.append("| %s | %s (%s) | %s | %s |" % (name, title, files, m.get("checks_run", ""), (m.get("outcome", "") + ((": " + m["note"]) if m.get("note") else "")).replace("|", "/").replace("\n", " ")))
 n = len(rows)
 caught = sum(1 for r in rows if "| caught" in r)
 text = ("<!-- CATCH-TABLE-BEGIN -->\n"
